@@ -337,5 +337,253 @@ theorem simplifyCast_frac_ok {n d : Expr} (hn : Clean n) (hd : Clean d) :
 theorem simplifyCast_sum_ok {e : Expr} {r : List Var} (he : Clean e) :
     ∃ e', simplifyCast (.sum e r) = .ok e' ∧ Clean e' := ⟨_, rfl, clean_sumSimplify he⟩
 
+/-! ### canonicalize -/
+
+mutual
+theorem canon_ok : ∀ (e : Expr), Clean e → ∃ e', canon e = .ok e' ∧ Clean e'
+  | .prob (some pop) c p, _ => ⟨.prob (some pop) (sortByName c) (sortByName p), by simp [canon], trivial⟩
+  | .prob none _ _, h => h.elim
+  | .prod fs, h => by
+    obtain ⟨es, hes, ces⟩ := canonFlat_ok fs h
+    exact ⟨productSafe es, by simp [canon, hes, bind, Except.bind, pure, Except.pure], clean_productSafe ces⟩
+  | .sum x r, h => by
+    obtain ⟨x', hx', cx'⟩ := canon_ok x h
+    exact ⟨sumSafe x' r true, by simp [canon, hx', bind, Except.bind, pure, Except.pure], clean_sumSafe true cx'⟩
+  | .frac n d, h => by
+    obtain ⟨n', hn', cn'⟩ := canon_ok n h.1
+    obtain ⟨d', hd', cd'⟩ := canon_ok d h.2
+    simp only [canon, hn', hd', bind, Except.bind, pure, Except.pure]
+    split
+    · exact ⟨_, rfl, cn'⟩
+    · split
+      · exact ⟨_, rfl, clean_one⟩
+      · exact truediv_ok cn' cd'
+  | .one, _ => ⟨.one, by simp [canon], trivial⟩
+  | .zero, h => h.elim
+  | .q _ _, h => h.elim
+theorem canonFlat_ok : ∀ (es : List Expr), CleanList es → ∃ es', canonFlat es = .ok es' ∧ CleanList es'
+  | [], _ => ⟨[], by simp [canonFlat], trivial⟩
+  | .prod gs :: xs, h => by
+    obtain ⟨gs', hgs', cgs'⟩ := canonFlat_ok gs h.1
+    obtain ⟨xs', hxs', cxs'⟩ := canonFlat_ok xs h.2
+    exact ⟨gs' ++ xs', by simp [canonFlat, hgs', hxs', bind, Except.bind, pure, Except.pure], cleanList_append cgs' cxs'⟩
+  | .prob pop c p :: xs, h => by
+    obtain ⟨x', hx', cx'⟩ := canon_ok _ h.1
+    obtain ⟨xs', hxs', cxs'⟩ := canonFlat_ok xs h.2
+    exact ⟨x' :: xs', by simp [canonFlat, hx', hxs', bind, Except.bind, pure, Except.pure], cx', cxs'⟩
+  | .sum x r :: xs, h => by
+    obtain ⟨x', hx', cx'⟩ := canon_ok _ h.1
+    obtain ⟨xs', hxs', cxs'⟩ := canonFlat_ok xs h.2
+    exact ⟨x' :: xs', by simp [canonFlat, hx', hxs', bind, Except.bind, pure, Except.pure], cx', cxs'⟩
+  | .frac n d :: xs, h => by
+    obtain ⟨x', hx', cx'⟩ := canon_ok _ h.1
+    obtain ⟨xs', hxs', cxs'⟩ := canonFlat_ok xs h.2
+    exact ⟨x' :: xs', by simp [canonFlat, hx', hxs', bind, Except.bind, pure, Except.pure], cx', cxs'⟩
+  | .one :: xs, h => by
+    obtain ⟨x', hx', cx'⟩ := canon_ok _ h.1
+    obtain ⟨xs', hxs', cxs'⟩ := canonFlat_ok xs h.2
+    exact ⟨x' :: xs', by simp [canonFlat, hx', hxs', bind, Except.bind, pure, Except.pure], cx', cxs'⟩
+  | .zero :: _, h => h.1.elim
+  | .q _ _ :: _, h => h.1.elim
+end
+
+theorem canonicalize_ok {e : Expr} (h : Clean e) : ∃ e', canonicalize e = .ok e' ∧ Clean e' := canon_ok e h
+
+theorem c14nSafe_ok {x : Option Expr} (hx : ∀ a, x = some a → Clean a) :
+    ∃ y, c14nSafe x = .ok y ∧ (∀ a, y = some a → Clean a) ∧ y.isSome = x.isSome := by
+  cases x with
+  | none => exact ⟨none, rfl, (by intro a ha; cases ha), rfl⟩
+  | some e =>
+    obtain ⟨e', he', ce'⟩ := canonicalize_ok (hx e rfl)
+    refine ⟨some e', by simp [c14nSafe, he', bind, Except.bind, pure, Except.pure], ?_, rfl⟩
+    intro a ha; cases ha; exact ce'
+
+/-! ### Except plumbing (existence direction) -/
+
+theorem ok_bind {α β} (a : α) (f : α → Except Err β) : ((Except.ok a : Except Err α) >>= f) = f a := rfl
+
+theorem bind_ok_of {α β} {x : Except Err α} {f : α → Except Err β} {Q : α → Prop} {P : β → Prop}
+    (hx : ∃ a, x = .ok a ∧ Q a) (hf : ∀ a, Q a → ∃ b, f a = .ok b ∧ P b) : ∃ b, (x >>= f) = .ok b ∧ P b := by
+  obtain ⟨a, rfl, qa⟩ := hx
+  exact hf a qa
+
+theorem mapM_ok_of {α β} {f : α → Except Err β} (P : β → Prop) :
+    ∀ (l : List α), (∀ a ∈ l, ∃ b, f a = .ok b ∧ P b) → ∃ r, l.mapM f = .ok r ∧ ∀ b ∈ r, P b := by
+  intro l
+  induction l with
+  | nil => intro _; exact ⟨[], by simp [List.mapM_nil, pure, Except.pure], by simp⟩
+  | cons a as ih =>
+    intro h
+    obtain ⟨b, hb, pb⟩ := h a (by simp)
+    obtain ⟨bs, hbs, pbs⟩ := ih (fun x hx => h x (by simp [hx]))
+    refine ⟨b :: bs, ?_, ?_⟩
+    · rw [List.mapM_cons, hb, ok_bind, hbs, ok_bind]; rfl
+    · intro x hx
+      rcases List.mem_cons.1 hx with rfl | hx
+      · exact pb
+      · exact pbs x hx
+
+theorem foldlM_ok_of {α β} {f : β → α → Except Err β} (J : β → Prop) :
+    ∀ (l : List α) (b : β), J b → (∀ acc a, a ∈ l → J acc → ∃ acc', f acc a = .ok acc' ∧ J acc') →
+      ∃ r, l.foldlM f b = .ok r ∧ J r := by
+  intro l
+  induction l with
+  | nil => intro b hb _; exact ⟨b, by simp [List.foldlM, pure, Except.pure], hb⟩
+  | cons a as ih =>
+    intro b hb h
+    obtain ⟨b', hb', jb'⟩ := h b a (by simp) hb
+    rw [List.foldlM_cons, hb', ok_bind]
+    exact ih b' jb' (fun acc x hx => h acc x (by simp [hx]))
+
+/-- a fold over a non-empty list whose every step lands in `J`, from a start in `I` -/
+theorem foldlM_ok_of_ne {α β} {f : β → α → Except Err β} (I J : β → Prop) (l : List α) (b : β) (hl : l ≠ []) (hb : I b)
+    (h : ∀ acc a, a ∈ l → I acc ∨ J acc → ∃ acc', f acc a = .ok acc' ∧ J acc') : ∃ r, l.foldlM f b = .ok r ∧ J r := by
+  cases l with
+  | nil => exact absurd rfl hl
+  | cons a as =>
+    obtain ⟨b', hb', jb'⟩ := h b a (by simp) (Or.inl hb)
+    rw [List.foldlM_cons, hb', ok_bind]
+    exact foldlM_ok_of J as b' jb' (fun acc x hx hj => h acc x (by simp [hx]) (Or.inr hj))
+
+/-! ### the expression-level blocks of TRSO -/
+
+theorem retag_ok {dom : Pop} {e : Expr} (h : Clean e) : ∃ e', retag dom e = .ok e' ∧ Clean e' := by
+  unfold retag
+  split
+  · exact ⟨_, rfl, trivial⟩
+  · exact h.elim
+  · exact ⟨_, rfl, h⟩
+
+theorem clean_line1 {Y : List Name} {e : Expr} {G : MG Name} (h : Clean e) : Clean (line1 Y e G) :=
+  clean_sumSafe false h
+
+theorem step1_ok {q : Query} {G : MG Name} (h : Clean q.expr) : ∃ e, step1 q G = .ok (some e) ∧ Clean e := by
+  obtain ⟨e, he, ce⟩ := canonicalize_ok (clean_line1 (Y := q.Y) (G := G) h)
+  refine ⟨e, ?_, ce⟩
+  unfold step1
+  rw [he, ok_bind]; rfl
+
+theorem line2_expr_ok {dom : Pop} {e : Expr} {r : List Var} (h : Clean e) :
+    ∃ e', retag dom (sumSafe e r true) = .ok e' ∧ Clean e' := retag_ok (clean_sumSafe true h)
+
+theorem indexOf_ok {l : List Name} {v : Name} (h : v ∈ l) : ∃ i, indexOf? l v = .ok i ∧ i < l.length := by
+  unfold indexOf?
+  cases hf : l.findIdx? (· = v) with
+  | none =>
+    rw [List.findIdx?_eq_none_iff] at hf
+    have := hf v h
+    simp at this
+  | some i =>
+    obtain ⟨hlt, _⟩ := List.findIdx?_eq_some_iff_getElem.1 hf
+    exact ⟨i, rfl, hlt⟩
+
+theorem sortVars_nonempty {r : List Var} (h : r ≠ []) : sortVars r ≠ [] := by
+  intro h0
+  cases r with
+  | nil => exact h rfl
+  | cons a as => have : a ∈ sortVars (a :: as) := (mem_sortVars a _).2 (by simp); rw [h0] at this; cases this
+
+theorem plainVars_nonempty {ns : List Name} (h : ns ≠ []) : plainVars ns ≠ [] := by
+  unfold plainVars
+  exact sortVars_nonempty (by simpa using h)
+
+theorem nsort_nonempty {l : List Name} (h : l ≠ []) : nsort l ≠ [] := by
+  intro h0
+  cases l with
+  | nil => exact h rfl
+  | cons a as => have : a ∈ nsort (a :: as) := (mem_nsort a _).2 (by simp); rw [h0] at this; cases this
+
+/-- `Sum.safe` (no simplification) over a non-empty range of a clean expression is a genuine `Sum` -/
+theorem sumSafe_eq_sum {e : Expr} {r : List Var} (he : Clean e) (hr : r ≠ []) : sumSafe e r = .sum e (sortVars r) := by
+  unfold sumSafe
+  have h1 : (sortVars r).isEmpty = false := by
+    cases hs : sortVars r with
+    | nil => exact absurd hs (sortVars_nonempty hr)
+    | cons _ _ => rfl
+  simp [h1, clean_not_zero he]
+
+/-- a `Fraction` of clean parts -/
+def FracClean (e : Expr) : Prop := ∃ n d, e = .frac n d ∧ Clean n ∧ Clean d
+
+theorem FracClean.clean {e : Expr} (h : FracClean e) : Clean e := by
+  obtain ⟨n, d, rfl, cn, cd⟩ := h; exact ⟨cn, cd⟩
+
+/-- one factor of Tian's c-factor formula (lines 9 and 10) is a `Fraction` -/
+theorem ratio_isFrac {e : Expr} {order : List Name} {i : Nat} (he : Clean e) (hi : i < order.length) :
+    ∃ fr, truediv (ratioParts e order i).1 (ratioParts e order i).2 = .ok fr ∧ FracClean fr := by
+  have hne : plainVars (order.drop i) ≠ [] := plainVars_nonempty (by
+    intro h0; rw [List.drop_eq_nil_iff] at h0; omega)
+  have h2 : (ratioParts e order i).2 = .sum e (sortVars (plainVars (order.drop i))) := sumSafe_eq_sum he hne
+  have c1 : Clean (ratioParts e order i).1 := clean_sumSafe false he
+  obtain ⟨n, d, hfr, cn, cd⟩ := truediv_isFrac (a := (ratioParts e order i).1) (b := (ratioParts e order i).2) c1
+    (by rw [h2]; exact he) (by rw [h2]; rfl) (by rw [h2]; rfl)
+  exact ⟨_, hfr, n, d, rfl, cn, cd⟩
+
+theorem line9_step {e : Expr} {order : List Name} {node : Name} {acc : Expr} (he : Clean e) (hn : node ∈ order)
+    (hacc : acc = .one ∨ FracClean acc) :
+    ∃ acc', (do let i ← indexOf? order node
+                let fr ← truediv (ratioParts e order i).1 (ratioParts e order i).2
+                mul acc fr) = Except.ok acc' ∧ FracClean acc' := by
+  refine bind_ok_of (indexOf_ok hn) (fun i hi => ?_)
+  refine bind_ok_of (ratio_isFrac he hi) (fun fr hfr => ?_)
+  obtain ⟨n, d, rfl, cn, cd⟩ := hfr
+  rcases hacc with rfl | ⟨n0, d0, rfl, cn0, cd0⟩
+  · exact ⟨_, mul_one_left _, n, d, rfl, cn, cd⟩
+  · obtain ⟨n2, d2, hm, c2, c2'⟩ := mul_frac_isFrac (n := n0) (d := d0) (n' := n) (d' := d) ⟨cn0, cd0⟩ ⟨cn, cd⟩
+    exact ⟨_, hm, n2, d2, rfl, c2, c2'⟩
+
+theorem line9_ok {q : Query} {G : MG Name} {c order : List Name} (hq : Clean q.expr)
+    (hord : regularOrder G = .ok order) (hc : ∀ v ∈ nsort c, v ∈ order) (hne : c ≠ []) :
+    ∃ e, line9 q G c = .ok e ∧ Clean e := by
+  unfold line9
+  rw [clean_not_zero hq, hord]
+  simp only [ok_bind, Bool.false_eq_true, if_false]
+  refine bind_ok_of (Q := FracClean)
+    (foldlM_ok_of_ne (fun acc => acc = Expr.one) FracClean _ _ (nsort_nonempty hne) rfl
+      (fun acc node hnode hacc => line9_step hq (hc node hnode) hacc)) (fun prod hprod => ?_)
+  obtain ⟨n, d, rfl, cn, cd⟩ := hprod
+  exact bind_ok_of (Q := Clean) (simplifyCast_frac_ok cn cd) (fun e he => ⟨_, rfl, clean_sumSafe false he⟩)
+
+theorem line10Factor_ok {q : Query} {order : List Name} {j : Bool} {node : Name} (hq : Clean q.expr)
+    (hn : node ∈ order) : ∃ f, line10Factor q order j node = .ok f ∧ Clean f := by
+  unfold line10Factor
+  refine bind_ok_of (indexOf_ok hn) (fun i _ => ?_)
+  split
+  · exact ⟨_, rfl, trivial⟩
+  · exact truediv_ok (clean_sumSafe false hq) (clean_sumSafe false hq)
+
+theorem line10_ok {q : Query} {G : MG Name} {c order : List Name} {s : List (Pop × List Name)} (hq : Clean q.expr)
+    (hord : regularOrder G = .ok order) (hc : ∀ v ∈ nsort c, v ∈ order) :
+    ∃ q', line10 q G c s = .ok q' ∧ Clean q'.expr ∧ q'.X = inter' q.X c ∧ q'.Y = q.Y ∧ q'.active = q.active ∧
+      q'.domain = q.domain ∧ q'.surr = s ∧ q'.graphs = assign q.graphs q.domain (G.subgraph (nsort c)) := by
+  unfold line10
+  rw [hord]
+  simp only [ok_bind]
+  refine bind_ok_of (Q := fun fs => ∀ f ∈ fs, Clean f)
+    (mapM_ok_of _ _ (fun node hnode => line10Factor_ok hq (hc node hnode))) (fun factors hf => ?_)
+  exact bind_ok_of (Q := Clean) (canonicalize_ok (clean_productSafe ((cleanList_iff _).2 hf)))
+    (fun e he => ⟨_, rfl, he, rfl, rfl, rfl, rfl, rfl, rfl⟩)
+
+/-- the tail of `step4` once `collectTerms` has returned `some terms` -/
+theorem step4_tail_ok {terms : List Expr} {rs : List Var} (h : ∀ t ∈ terms, Clean t) :
+    ∃ e, (do let summand ← canonicalize (productSafe terms)
+             pure (some (← canonicalize (sumSafe summand rs))) : Except Err (Option Expr)) = .ok (some e) ∧ Clean e := by
+  obtain ⟨summand, hs, cs⟩ := canonicalize_ok (clean_productSafe ((cleanList_iff _).2 h))
+  obtain ⟨e, he, ce⟩ := canonicalize_ok (clean_sumSafe (r := rs) false cs)
+  refine ⟨e, ?_, ce⟩
+  rw [hs, ok_bind, he, ok_bind]; rfl
+
+theorem step4_ok {rec : Rec} {q : Query} {G : MG Name} {dwi : List (List Name)} {terms : List Expr}
+    (hct : collectTerms ((line4 q G dwi).map rec) = .ok (some terms)) (h : ∀ t ∈ terms, Clean t) :
+    ∃ e, step4 rec q G dwi = .ok (some e) ∧ Clean e := by
+  unfold step4
+  rw [hct, ok_bind]
+  exact step4_tail_ok h
+
+theorem step4_none {rec : Rec} {q : Query} {G : MG Name} {dwi : List (List Name)}
+    (hct : collectTerms ((line4 q G dwi).map rec) = .ok none) : step4 rec q G dwi = .ok none := by
+  unfold step4
+  rw [hct, ok_bind]; rfl
+
 end Trso
 end Y0
